@@ -31,8 +31,7 @@ ASSUMPTIONS = [
     "unless a dtype is passed; reported as a finding): values are compared after conversion",
     "gln_adjoint, sln_adjoint, sl2c_to_so31 and o_to_pgl are written for a single matrix: on arrays "
     "a clean exception or the unit loop (a squeezed size-1 axis is tolerated) is accepted",
-    "sl2_irrep / sl2_to_so21 on int64-typed input raise a casting error (integer input must be given "
-    "as float; observed, not claimed)",
+    "sl2_irrep on integer-typed input (int8, int16, int64) is compared with the float-typed copy",
 ]
 
 CLAIM = dict(
@@ -231,6 +230,19 @@ def body_irrep(case, ctx):
               fa @ O.veronese(v, n), O.veronese(A @ v, n), rtol=0, atol=1e-9 * sc)
     ctx.close("sl2_irrep(A) vs the matrix determined by the Veronese map", fa,
               sl2_irrep_oracle(A, n), rtol=0, atol=1e-9 * sc * 4 ** n)
+    # elements of SL(2, Z) held in integer-typed arrays (narrow ones, and large entries whose
+    # single powers fit the type): the same matrix as for the float-typed copy
+    k = 1 + int(abs(case["v"][0]) * 7) % 3
+    for Mi in (np.array([[3, 1], [2, 1]], dtype=np.int8),
+               np.array([[2 * k + 1, k], [2, 1]], dtype=np.int16),
+               np.array([[40001, 40000], [40002, 40001]], dtype=np.int64)):
+        if float(np.abs(Mi).max()) ** (n - 1) > np.iinfo(Mi.dtype).max:
+            continue          # (a single power of an entry does not fit the caller's dtype)
+        ri = np.asarray(lie.sl2_irrep(Mi.copy(), n), dtype=float)
+        rf = np.asarray(lie.sl2_irrep(Mi.astype(float), n), dtype=float)
+        ctx.close("sl2_irrep of an %s-typed matrix = sl2_irrep of its float copy" % Mi.dtype,
+                  ri, rf, rtol=1e-12, atol=0)
+    ctx.label("integer-typed-input")
     dA = np.linalg.det(A)
     want = dA ** (n * (n - 1) // 2)
     ctx.close("det sl2_irrep(A, n) = det(A)^(n(n-1)/2)", np.linalg.det(fa), want, rtol=0,
@@ -295,6 +307,18 @@ def body_adjoint(which):
                     ctx.close("adjoint of an %s-typed matrix = adjoint of the same matrix as "
                               "float" % np.dtype(it).name, as_num(f_lib(A.astype(it))),
                               f_ref(A), rtol=0, atol=1e-10 * cA * cA * n)
+        if n >= 2:
+            # matrices close to, or formally like, orthogonal ones: g g^T = I for a complex g
+            # that is not unitary, and a real g within 1e-5 of a rotation
+            t_ = 0.3 + abs(float(case["X"][0]))
+            Zc = np.eye(n, dtype=complex)
+            Zc[:2, :2] = [[math.cosh(t_), 1j * math.sinh(t_)], [-1j * math.sinh(t_), math.cosh(t_)]]
+            Zr = np.eye(n)
+            Zr[0, 0], Zr[1, 1] = 1 + 4e-6, 1 / (1 + 4e-6)
+            for nm_, Z_ in (("complex orthogonal, not unitary", Zc), ("nearly orthogonal", Zr)):
+                ctx.close("adjoint of a matrix that is %s" % nm_, as_num(f_lib(Z_.copy())),
+                          f_ref(Z_), rtol=0, atol=1e-10 * cond_of(Z_) ** 2 * n)
+            ctx.label("orthogonal-like-matrices")
         if case["give_inv"]:
             ctx.label("inv-given")
             fa = f_lib(A.copy(), inv=np.linalg.inv(A))
